@@ -37,6 +37,7 @@ MIN_REACH = {
     "resows_after_a_cleaning_reap": {"quick": 20, "thorough": 50},
     "resows_of_farmer_crops": {"quick": 8, "thorough": 25},
     "farmers_holding_a_name_as_constant_and_resource": {"quick": 12, "thorough": 150},
+    "positional_cases_named_by_the_farmers_fn_args": {"quick": 8, "thorough": 40},
     "resows_after_the_farmer_changed_what_it_provides": {"quick": 5, "thorough": 20},
 }
 TIME_BUDGET = {"quick": 300, "thorough": 3000}
@@ -73,10 +74,15 @@ def cases(ctx):
         for bs in range(1, n + 2):
             yield {"w": {"mode": "cases", "combos": [], "names": ["p", "q"], "cases": cs, "constants": {}, "kind": "int",
                          "case_spelling": "dict" if bs % 2 else "tuple"},
-                   "batchsize": bs, "num_batches": None, "shuffle": False, "where": "sow"}
+                   "batchsize": bs, "num_batches": None, "shuffle": False, "where": "sow", "farmer": bs % 4 == 0}
         for nb in range(1, n + 3):
             yield {"w": {"mode": "cases", "combos": [], "names": ["p", "q"], "cases": cs, "constants": {}, "kind": "int"},
                    "batchsize": None, "num_batches": nb, "shuffle": False, "where": "sow"}
+    # one argument with a name of several characters, given positionally: as a 1-tuple of names, or as one bare string
+    for n in range(1, cmax + 1):
+        cs = [{"temp": 10 * i} for i in range(n)]
+        yield {"w": {"mode": "cases", "combos": [], "names": ["temp"], "cases": cs, "constants": {}, "kind": "int", "case_spelling": "tuple"},
+               "batchsize": 1 + n % 3, "num_batches": None, "shuffle": False, "where": "sow", "bare_name": n % 2 == 0}
     # re-sowing an existing crop (same object, or re-created from disk so that batchsize, num_batches and the remainder are
     # all known) with the same or a different number of settings: either refused with nothing touched, or an exact partition
     rr = ctx.rng("resow")
@@ -99,6 +105,9 @@ def cases(ctx):
         w = cropkit.gen_workload(rng, nmax=48, exotic=True)
         if w["mode"] != "grid" and rng.random() < 0.5:
             w["via"] = "sow_combos"
+        elif w["mode"] != "grid":
+            # positional cases named by fn_args (a tuple of names, or one bare name with bare values)
+            w["case_spelling"] = rng.choice(["dict", "tuple", "tuple"])
         n = gens.n_settings(w["combos"], w["cases"])
         c = {"w": w, "batchsize": None, "num_batches": None, "where": rng.choice(["ctor", "sow"]),
              "shuffle": rng.choice([False, True, rng.randint(2, 9999)]), "shuffle_where": rng.choice(["ctor", "sow"]),
@@ -280,14 +289,21 @@ def run_case(ctx, case):
     constants = dict(w["constants"])
     farmer = None
     farmer_consts = {}
+    sowkw_extra = {}
     if case.get("farmer"):
         fc, fr = {"fc": 7}, {"res_r": "r0"}
         if case.get("farmer_dup"):
             # the same name held both as a constant and as a resource of the farmer: a direct run passes the constant
             fc, fr = {"fc": 7, "both": 3}, {"res_r": "r0", "both": -1}
             ctx.count("farmers_holding_a_name_as_constant_and_resource")
+        fa = {}
+        if w["mode"] != "grid" and w.get("via") != "sow_combos" and w.get("case_spelling") == "tuple" and len(w["names"]) >= 2:
+            # the Runner holds the names (and order) of positional cases; the sow call gives none - as Runner.run_cases
+            fa = {"fn_args": tuple(w["names"])}
+            sowkw_extra["names_from_farmer"] = True
+            ctx.count("positional_cases_named_by_the_farmers_fn_args")
         farmer = xyzpy.Runner(fn, var_names=None if w["kind"].startswith(("data", "dict")) else "out",
-                              constants=fc, resources=fr)
+                              constants=fc, resources=fr, **fa)
         farmer_consts = _direct_run_extras(farmer, {**fr, **fc})
     ctor = {}
     sowkw = {}
@@ -316,7 +332,7 @@ def run_case(ctx, case):
             else:
                 if shuffle_at_sow is not None:
                     crop.shuffle = shuffle_at_sow   # sow_cases has no shuffle argument: the crop attribute is the API
-                cropkit.sow(crop, w, **sowkw)
+                cropkit.sow(crop, w, **sowkw, **sowkw_extra)
             rep1 = (crop.batchsize, crop.num_batches, crop.num_sown_batches)
             crop2 = xyzpy.Crop(name="c7", parent_dir=tmp)
             rep2 = (crop2.batchsize, crop2.num_batches, crop2.num_sown_batches)
